@@ -29,7 +29,7 @@ def judge(prop, stage, chk):
     if prop == "C05":
         return [k for k in ("conserved",) if chk.get(k) != "1"]
     if prop == "C06":
-        return [k for k in ("ctl", "tables", "simNameC", "simRegionC") if chk.get(k) != "1"]
+        return [k for k in ("ctl", "tables") if chk.get(k) != "1"]
     raise KeyError(prop)
 
 
